@@ -1,0 +1,8 @@
+//go:build !verif
+
+package common
+
+func verifNoop() {}
+
+// VerifLock is a no-op unless the "verif" build tag is set.
+func VerifLock(any) func() { return verifNoop }
